@@ -46,9 +46,9 @@ type universe struct {
 }
 
 func loadUniverse() *universe {
-	rds, _, unknown := discover()
+	rds, _, unknown, _ := discover()
 	if len(unknown) > 0 {
-		fatalf("%d method(s) of *decode.D are neither classified as reader nor explicitly excluded:\n  %s",
+		fatalf("%d method(s) of *decode.D have a reader name but not a reader signature:\n  %s",
 			len(unknown), strings.Join(unknown, "\n  "))
 	}
 	u := &universe{readers: rds, byBase: map[string][]*reader{}, used: map[string]bool{}}
@@ -353,7 +353,11 @@ func run(r *core.Run) {
 			perVariant[variantNames[rd.variant]]++
 		}
 		r.Extra("reader_methods_per_form", perVariant)
-		_, excl, _ := discover()
+		_, excl, _, uncl := discover()
+		if len(uncl) > 0 {
+			r.Extra("unclassified_methods_not_exercised", uncl)
+			r.Logf("WARNING: %d method(s) of *decode.D are neither reader names nor on the exclusion list (not exercised): %s", len(uncl), strings.Join(uncl, "; "))
+		}
 		reasons := map[string]int{}
 		for _, why := range excl {
 			reasons[why]++
